@@ -208,8 +208,9 @@ def run(ck):
                 def thq(it):
                     s = make_state(it, "DensityMatrix")
                     v, vp = (tens(it, "v", ("Bv", "nv")), tens(it, "vp", ("Bp", "nv"))) if expand else (tens(it, "v", ("B", "nv")), tens(it, "vp", ("B", "nv")))
+                    Ra_, Rp_ = role_terms(it, it.get_attr(s, "rbm_am", None)), role_terms(it, it.get_attr(s, "rbm_ph", None))
                     g = call(it, s, "pi_grad", v, vp, phase=VConst(phase), expand=VConst(expand))
-                    return role_terms(it, it.get_attr(s, "rbm_am", None)), role_terms(it, it.get_attr(s, "rbm_ph", None)), g
+                    return Ra_, Rp_, g
 
                 for p in returning(paths_of(prog, thq), inst):
                     Ra, Rp, g = p.value
@@ -230,9 +231,10 @@ def run(ck):
                     gx, gy = sc[0][7].get("x"), sc[0][7].get("y")
                     # the phase network's auxiliary bias is held at its documented value 0 (C02's quantifier, C20.R5):
                     # compare under that invariant
-                    dph = Rp["d"].single_atom().name
-                    gx = T.rename_syms(gx, {dph: T.ZERO}) if gx is not None else None
-                    gy = T.rename_syms(gy, {dph: T.ZERO}) if gy is not None else None
+                    dat = Rp["d"].single_atom()
+                    if isinstance(dat, T.Sym):
+                        gx = T.rename_syms(gx, {dat.name: T.ZERO}) if gx is not None else None
+                        gy = T.rename_syms(gy, {dat.name: T.ZERO}) if gy is not None else None
                     for nm, got, want in (("real", gx, x_ref), ("imaginary", gy, f_ref)):
                         d = lin_diff(got, want)
                         ck.check(diff_verdict(d), "C03.R6", inst + ":%s part of the sigmoid argument = Pi's argument" % nm, psite,
